@@ -331,3 +331,50 @@ def c11_r5(ctx):
         ctx.ob(cls, not missing, "reset() re-initialises, on every path, every attribute the cursor moves write",
                detail="written by next/skip_to*: %s; not (unconditionally) restored by reset(): %s" % (sorted(moved), missing) if missing else "",
                loc=cls.loc)
+
+
+@rule("C11", "R6", "K9", "whole posting blocks are skipped only when the target lies strictly beyond them",
+      min_instances=2, also=("C01", "C06", "C05"),
+      clause="Every predicate handed to W3LeafMatcher._skip_to_block is `target id > block_max_id()` (strict: a block "
+             "whose last id equals the target still contains it) or `block_quality() <= minquality` (a block that can "
+             "only tie the threshold cannot beat it); _skip_to_block applies the predicate to the current block before "
+             "every _next_block().")
+def c11_r6(ctx):
+    prog = ctx.prog
+    cls = prog.cls("codec.whoosh3.W3LeafMatcher")
+    n = 0
+    for m, f in cls.methods.items():
+        al = norm.aliases(f.node)
+        for c in norm.calls_in(f.node):
+            if norm.call_name(c) != "_skip_to_block" or not c.args:
+                continue
+            n += 1
+            ctx.saw(f)
+            pred = c.args[0]
+            body = pred.body if isinstance(pred, ast.Lambda) else None
+            if body is None and isinstance(pred, ast.Name):
+                # a nested def returning the test
+                for d in ast.walk(f.node):
+                    if isinstance(d, ast.FunctionDef) and d.name == pred.id and len(d.body) == 1 and isinstance(d.body[0], ast.Return):
+                        body = d.body[0].value
+            t = norm.canon(body, al) if body is not None else "?"
+            params = f.params[1:]
+            tgt = params[0] if params else "?"
+            if "block_max_id" in t:
+                ok = t == "(self.block_max_id() < %s)" % tgt
+                want = "%s > block_max_id()" % tgt
+            elif "block_quality" in t:
+                ok = t == "(self.block_quality() <= %s)" % tgt
+                want = "block_quality() <= %s" % tgt
+            else:
+                ok, want = False, "a comparison with block_max_id() or block_quality()"
+            ctx.ob(f, ok, "blocks are skipped while %s" % want, detail="predicate: %s" % t, loc=ctx.nodeloc(f, c))
+    sb = cls.methods.get("_skip_to_block")
+    if sb is None:
+        raise AnalysisError("W3LeafMatcher._skip_to_block vanished")
+    loops = [w for w in ast.walk(sb.node) if isinstance(w, ast.While)]
+    ok = len(loops) == 1 and any(norm.call_name(c_) == sb.params[1] for c_ in norm.calls_in(loops[0].test)) and \
+        any(norm.call_name(c_) == "_next_block" for s_ in loops[0].body for c_ in norm.calls_in(s_))
+    ctx.ob(sb, ok, "_skip_to_block tests the predicate before every _next_block()")
+    if n < 2:
+        raise AnalysisError("only %d _skip_to_block call sites" % n)
